@@ -385,6 +385,14 @@ def l3_case(chk, ctx, c, rng):
         elif not (np.array_equal(np.ma.getmaskarray(sc), mm) and
                   np.allclose(np.ma.getdata(sc)[~mm], th_want * mv[~mm], rtol=1e-9, atol=0)):
             _fail(chk, 'optimally_scaled_sfs:value' + tag, 'optimally_scaled_sfs is not (sum(data)/sum(model) over the joint set) * model', inp)
+    # --- the array layout is irrelevant (C11_layout_irrelevant): the same entries listed in another order (axes transposed)
+    if M.ndim >= 2 and want is not None and th_ok:
+        Mt = mk_spec(dadi, mv.T.copy(), mm.T.copy(), M.folded); Dt = mk_spec(dadi, dv.T.copy(), dm.T.copy(), D.folded)
+        g1, e1 = call(I.ll, Mt, Dt); g2, e2 = call(I.optimal_sfs_scaling, Mt, Dt)
+        chk.l3(key + ('layout',))
+        if e1 is not None or e2 is not None or g1 is np.ma.masked or g2 is np.ma.masked or \
+                not near(float(g1), want, 1e-9 * mag) or not near(float(g2), th_want, 0.0):
+            _fail(chk, 'layout', 'll / optimal_sfs_scaling change when both spectra are transposed: %r / %r vs %r / %r' % (g1, g2, want, th_want), inp)
     # --- multinomial likelihood = max over positive rescalings, invariant under rescaling
     if pos_ok and th_want is not None and math.isfinite(th_want) and th_want > 0:
         lm, e = call(I.ll_multinom, M, D)
